@@ -283,6 +283,10 @@ func (c *SpecCtx) ident(name string) SV {
 		// also for parameters that the function spilled to memory and reassigns (e.g. input.started)
 		if _, bound := c.bound[name]; !bound {
 			if v, ok := c.lookup(name); ok {
+				if _, isResult := c.vars[name]; isResult && strings.HasPrefix(name, "result") {
+					// a local variable named like the return value: the clause would silently talk about the local
+					fail("spec: %q is ambiguous in %s (a local variable of that name shadows the return value; write result0)", name, c.f.fn)
+				}
 				return v
 			}
 		}
